@@ -68,15 +68,31 @@ int vnaproperty_import_yaml_from_string(vnaproperty_t **rootptr,
 		"%s error: empty YAML document", vyml.vyml_filename);
 	goto error;
     }
-    if (_vnaproperty_yaml_import(&vyml, rootptr, (void *)root) == -1) {
-	goto error;
+    /*
+     * Build the new tree aside and replace the existing content only
+     * on success.
+     */
+    {
+	vnaproperty_t *new_root = NULL;
+
+	if (_vnaproperty_yaml_import(&vyml, &new_root, (void *)root) == -1) {
+	    int saved_errno = errno;
+
+	    (void)vnaproperty_delete(&new_root, ".");
+	    errno = saved_errno;
+	    goto error;
+	}
+	(void)vnaproperty_delete(rootptr, ".");
+	*rootptr = new_root;
     }
     yaml_document_delete(&document);
+    yaml_parser_delete(&parser);
     return 0;
 
 error:
     if (delete_document) {
 	yaml_document_delete(&document);
     }
+    yaml_parser_delete(&parser);
     return -1;
 }
